@@ -218,22 +218,40 @@ def real_open(*a, **k):
     return _real["open"](*a, **k)
 
 
-def _text_wrapper_with_default(default):
-    """io.TextIOWrapper whose *omitted* encoding is the emulated platform default (a text
-    layer put over a binary stream without naming an encoding decodes with the locale's
-    encoding, exactly like open() without encoding=)."""
+_platform_default = [None]  # emulated platform default text encoding while an FsSim is installed
+
+
+def _make_text_wrapper():
+    """io.TextIOWrapper whose *omitted* encoding (None, or "locale") is the emulated platform
+    default: a text layer put over a binary stream without naming an encoding decodes with
+    the locale's encoding, exactly like open() without encoding=.  One permanent class that
+    reads the current default, so that a module doing `from io import TextIOWrapper` while
+    the simulator is installed does not freeze one run's encoding."""
     base = _real["TextIOWrapper"]
 
     class _MetaTW(type(base)):
-        def __instancecheck__(cls, obj):  # isinstance(x, io.TextIOWrapper) keeps its meaning
-            return isinstance(obj, base)
+        def __instancecheck__(cls, obj):
+            if cls is TextIOWrapper:  # isinstance(x, io.TextIOWrapper) keeps its meaning
+                return isinstance(obj, base)
+            return type.__instancecheck__(cls, obj)
+
+        def __subclasscheck__(cls, sub):
+            if cls is TextIOWrapper:
+                return issubclass(sub, base)
+            return type.__subclasscheck__(cls, sub)
 
     class TextIOWrapper(base, metaclass=_MetaTW):
         def __init__(self, buffer, encoding=None, *a, **k):
-            base.__init__(self, buffer, default if encoding is None else encoding, *a, **k)
+            if encoding in (None, "locale") and _platform_default[0] is not None:
+                encoding = _platform_default[0]
+            base.__init__(self, buffer, encoding, *a, **k)
 
     TextIOWrapper.__module__ = "io"
+    TextIOWrapper.__qualname__ = "TextIOWrapper"
     return TextIOWrapper
+
+
+_SimTextIOWrapper = _make_text_wrapper()
 
 
 class FileProxy(io.BufferedIOBase):
@@ -426,7 +444,7 @@ class FsSim(object):
             return _real["open"](file, mode, buffering, encoding, errors, newline, closefd, opener)
         writing = any(c in mode for c in "wax+")
         if not writing:
-            if "b" not in mode and encoding is None:
+            if "b" not in mode and encoding in (None, "locale"):
                 encoding = self.encoding  # emulated platform default
             return _real["open"](file, mode, buffering, encoding, errors, newline, closefd, opener)
         role = "copy" if self._copying else "open"
@@ -435,8 +453,10 @@ class FsSim(object):
             raise OSError(errno.ENOSPC, "simulated: cannot create file")
         if "b" in mode:
             realf = _real["open"](file, mode, 0, None, None, None, closefd, opener)
-            return FileProxy(self, realf, role, self.bufsize, raw=(buffering == 0))
-        if encoding is None:
+            if buffering == 0:
+                return _ProxyRaw(FileProxy(self, realf, role, 0, raw=True))  # a FileIO is an io.RawIOBase
+            return FileProxy(self, realf, role, self.bufsize)
+        if encoding in (None, "locale"):
             encoding = self.encoding
         realf = _real["open"](file, mode.replace("t", "") + "b", 0)
         return _real["TextIOWrapper"](_ProxyRaw(FileProxy(self, realf, role, self.bufsize)), encoding=encoding,
@@ -452,10 +472,12 @@ class FsSim(object):
             os.close(fd)
             raise OSError(errno.EMFILE, "simulated: too many open files")
         if "b" in mode:
-            return FileProxy(self, _real["fdopen"](fd, mode, 0), "tmp", self.bufsize, raw=(buffering == 0))
+            if buffering == 0:
+                return _ProxyRaw(FileProxy(self, _real["fdopen"](fd, mode, 0), "tmp", 0, raw=True))
+            return FileProxy(self, _real["fdopen"](fd, mode, 0), "tmp", self.bufsize)
         realf = _real["fdopen"](fd, mode.replace("t", "") + "b", 0)
         return _real["TextIOWrapper"](_ProxyRaw(FileProxy(self, realf, "tmp", self.bufsize)),
-                                encoding=encoding or self.encoding, write_through=True)
+                                encoding=self.encoding if encoding in (None, "locale") else encoding, write_through=True)
 
     def _os_open(self, path, flags, mode=0o777, *, dir_fd=None):
         if self.crashed:
@@ -503,7 +525,8 @@ class FsSim(object):
         os.replace = self._replace
         os.unlink = self._unlink
         os.remove = self._unlink
-        io.TextIOWrapper = _text_wrapper_with_default(self.encoding)
+        _platform_default[0] = self.encoding
+        io.TextIOWrapper = _SimTextIOWrapper
         if _real["sendfile"] is not None:
             shutil._USE_CP_SENDFILE = False
         if _real["copyrange"] is not None:
@@ -522,6 +545,7 @@ class FsSim(object):
         os.unlink = _real["unlink"]
         os.remove = _real["remove"]
         io.TextIOWrapper = _real["TextIOWrapper"]
+        _platform_default[0] = None
         if _real["sendfile"] is not None:
             shutil._USE_CP_SENDFILE = _real["sendfile"]
         if _real["copyrange"] is not None:
@@ -537,13 +561,17 @@ class FsSim(object):
 
 
 class _ProxyRaw(io.RawIOBase):
-    """Adapter so that io.TextIOWrapper can sit on top of a FileProxy."""
+    """A FileProxy seen as a raw stream: what io.TextIOWrapper sits on, and what the code
+    under test gets when it opens a binary file with buffering=0."""
 
     def __init__(self, proxy):
         self._p = proxy
 
     def writable(self):
         return True
+
+    def fileno(self):
+        return self._p.fileno()
 
     def write(self, b):
         return self._p.write(bytes(b))
